@@ -177,6 +177,50 @@ def r2(ctx, prog):
         raise AnalysisBroken('expected >=3 report sinks (a_vec, cname_vec, label text), found %d' % n)
 
 
+def _expand_names(f, e, depth=0):
+    """names of the variables an expression depends on, single-definition locals replaced by what they are defined from"""
+    out = set()
+    for x in f.walk(e):
+        sx = f.stmts[x]
+        if sx['k'] != 'DeclRefExpr' or sx.get('dk') not in ('Var', 'ParmVar'):
+            continue
+        defs = rd.local_defs(f, sx['d']) if sx.get('dk') == 'Var' and not sx.get('gl') else []
+        if len(defs) == 1 and defs[0]['kind'] == 'init' and defs[0]['rhs'] is not None and depth < 4 and \
+                not any(f.stmts[y]['k'] in q.CALL_KINDS for y in f.walk(defs[0]['rhs'])) and (f.s(defs[0]['rhs']) or {}).get('cv') is None:
+            out |= _expand_names(f, defs[0]['rhs'], depth + 1)
+        else:
+            out.add(sx.get('n'))
+    return out
+
+
+def fold_expanded(f, e, env, depth=0):
+    """constant folding with env {name: value}; a single-definition local that is not in env stands for its initialiser"""
+    def leaf(sx):
+        if sx['k'] != 'DeclRefExpr':
+            return None
+        if sx.get('n') in env:
+            return env[sx['n']]
+        if sx.get('dk') == 'Var' and not sx.get('gl') and depth < 4:
+            defs = rd.local_defs(f, sx['d'])
+            if len(defs) == 1 and defs[0]['kind'] == 'init' and defs[0]['rhs'] is not None:
+                return fold_expanded(f, defs[0]['rhs'], env, depth + 1)
+        return None
+    return q.eval_expr(f, e, leaf)
+
+
+def reply_bit_test(f):
+    """(condition, edge index on which the function returns) of `if (<something of flags only>) return;`"""
+    for st in f.stmts:
+        if st and st['k'] == 'IfStmt' and st.get('cond') is not None:
+            if _expand_names(f, st['cond']) != {'flags'} or any(f.stmts[x]['k'] in q.CALL_KINDS for x in f.walk(st['cond'])):
+                continue
+            kids = [f.s(c) for c in st['ch']]
+            for kid in kids:
+                if kid is not None and (kid['k'] == 'ReturnStmt' or (kid['k'] == 'CompoundStmt' and len(kid['ch']) == 1 and (f.s(kid['ch'][0]) or {}).get('k') == 'ReturnStmt')):
+                    return st['cond'], (0 if kid['i'] != st.get('else') else 1)
+    return None
+
+
 MAX_DEPTH = 1024
 
 
@@ -327,8 +371,9 @@ def r5(ctx, prog):
     ctx.ob('C15.R5', '%s|cancel-erases' % c.name, bool(q.calls(c, callee=DNS + '::deleteRequest')) and not q.invokes(c), 'cancel only erases', where=c.loc(c.body))
     # non-reply packets and unknown ids return before any parsing side effect
     parse_calls = [st for st in f.calls() if st.get('callee', '').endswith('FetchDomain')]
-    flag_tests = [st for st in f.stmts if st and st['k'] == 'BinaryOperator' and st.get('op') == '&' and f.s(f.strip_casts(st['ch'][1])).get('cv') == 0x8000]
-    ok = bool(flag_tests) and all(f.cfg.dominates(q.pt(f, flag_tests[0]), q.pt(f, p_)) for p_ in parse_calls) and \
+    rb = reply_bit_test(f)
+    rbp = f.cfg.point_of(rb[0]) if rb else None
+    ok = rbp is not None and all(f.cfg.dominates(rbp, q.pt(f, p_)) for p_ in parse_calls) and \
         all(f.cfg.dominates(q.pt(f, q.calls(f, callee=DNS + '::findRequest')[0]), q.pt(f, p_)) for p_ in parse_calls)
     ctx.ob('C15.R5', '%s|reject-first' % f.name, ok, 'id lookup and the reply-bit test dominate all record parsing', where=f.loc(f.body))
 
@@ -431,6 +476,138 @@ def r11(ctx, prog):
         raise AnalysisBroken('expected >= 6 status-returning Deserializer calls on the datagram path, saw %d' % n)
 
 
+def r12(ctx, prog):
+    ctx.rule('C15.R12', 'A11 wire-format conformance with RFC 1035 §4.1, by finite-domain evaluation of the parser\'s own expressions: the reply test is "QR bit (0x8000) set", '
+             'the response code is the low four bits and 0 means success, a label length of 0 ends a name, the two top bits set mark a compression pointer whose target is '
+             '((len & 0x3f) << 8) | next byte, and the question / answer loops run exactly QDCOUNT / ANCOUNT times — each decided by folding the expression found in the '
+             'code over the whole domain of its byte (or a grid of 16-bit values) and comparing with the defining formula', floor=7)
+    f, fs = parse_funcs(prog)
+    fd = [g for g in fs if g.short == 'FetchDomain']
+    if len(fd) != 1:
+        raise AnalysisBroken('FetchDomain not found')
+    fd = fd[0]
+
+    def local(g, name):
+        for st in g.stmts:
+            if st and st['k'] == 'DeclStmt':
+                for d in st['decls']:
+                    if d.get('n') == name:
+                        return d
+        return None
+
+    def fold(g, e, env):
+        return fold_expanded(g, e, env)
+
+    def edge_truth(g, cond, k, env):
+        v = fold(g, cond, env)
+        return None if v is None else (bool(v) == (k == 0))
+    GRID16 = [0x0000, 0x0001, 0x000f, 0x0100, 0x0183, 0x7fff, 0x8000, 0x8180, 0x8183, 0x8003, 0xffff, 0x8400, 0x0400]
+    # 1. reply bit: the early return taken for packets that are not replies
+    flags = local(f, 'flags')
+    rcode = local(f, 'rcode')
+    if not flags or not rcode or 'init' not in rcode:
+        raise AnalysisBroken('onUdpRecv: locals flags / rcode not found')
+    qr = reply_bit_test(f)
+    if qr is None:
+        ctx.ob('C15.R12', '%s|reply-bit' % f.name, False, 'no early return tests the QR bit of the flags: queries with a matching id are processed as replies', where=f.loc(f.body))
+    else:
+        bad = [v for v in GRID16 if edge_truth(f, qr[0], qr[1], {'flags': v}) != ((v & 0x8000) == 0)]
+        ctx.ob('C15.R12', '%s|reply-bit' % f.name, not bad, 'the datagram is dropped exactly when bit 0x8000 of the flags is clear' if not bad else
+               'the reply test differs from "QR bit clear -> drop" for flags=0x%04x: %s' % (bad[0], 'a query is processed as a reply' if not (bad[0] & 0x8000) else 'a reply is dropped'),
+               where=f.loc(qr[0]))
+    # 2. response code
+    bad = [v for v in GRID16 if fold(f, rcode['init'], {'flags': v}) != (v & 0x0f)]
+    ctx.ob('C15.R12', '%s|rcode' % f.name, not bad, 'rcode is the low four bits of the flags' if not bad else 'rcode != flags & 0x000f for flags=0x%04x' % bad[0], where=f.loc(rcode['init']))
+    succ = None
+    for st in f.stmts:
+        if st and st['k'] == 'IfStmt':
+            names = {f.stmts[x].get('n') for x in f.walk(st['cond'])} if st.get('cond') is not None else set()
+            if 'rcode' in names and any(c.get('fn') in ('push_back', 'emplace_back') for x in f.walk(st['ch'][1] if len(st['ch']) > 1 else st['i']) for c in [f.stmts[x]] if c['k'] in q.CALL_KINDS):
+                succ = st
+    if succ is None:
+        raise AnalysisBroken('onUdpRecv: the branch that parses records under a test of rcode was not found')
+    bad = [v for v in range(16) if bool(fold(f, succ['cond'], {'rcode': v})) != (v == 0)]
+    ctx.ob('C15.R12', '%s|rcode-success' % f.name, not bad, 'records are parsed exactly when rcode == 0 (NOERROR)' if not bad else
+           'records are parsed for rcode=%d and not for NOERROR' % bad[0] if 0 in bad else 'records are parsed for rcode=%d' % bad[0], where=f.loc(succ['cond']))
+    # 3. counted loops
+    for cnt in ('qd_count', 'an_count'):
+        loops = [st for st in f.stmts if st and st['k'] == 'ForStmt' and st.get('cond') is not None and cnt in {f.stmts[x].get('n') for x in f.walk(st['cond'])}]
+        if len(loops) != 1:
+            raise AnalysisBroken('onUdpRecv: the loop over %s was not found' % cnt)
+        lp = loops[0]
+        ivar = None
+        for x in f.walk(lp['init']) if lp.get('init') is not None else ():
+            if f.stmts[x]['k'] == 'DeclStmt':
+                ivar = f.stmts[x]['decls'][0]
+        inc = f.s(lp.get('inc')) if lp.get('inc') is not None else None
+        step1 = inc is not None and inc['k'] == 'UnaryOperator' and inc.get('op') == '++'
+        start = (f.s(ivar['init']) or {}).get('cv') if ivar and 'init' in ivar else None
+        # the count-dependent conjunct of the condition, folded for count = 0..4: trips = number of i from start for which it holds
+        conj = [c for c in _conjuncts(f, lp['cond']) if cnt in {f.stmts[x].get('n') for x in f.walk(c)}]
+        trips_ok = bool(conj) and step1 and start is not None
+        if trips_ok:
+            for N in range(0, 5):
+                i, t = start, 0
+                while t < 10 and fold(f, conj[0], {ivar['n']: i, cnt: N}):
+                    i += 1
+                    t += 1
+                if t != N:
+                    trips_ok = False
+                    witness = (N, t)
+                    break
+        ctx.ob('C15.R12', '%s|%s-trips' % (f.name, cnt), trips_ok, 'the loop body runs exactly %s times' % cnt if trips_ok else
+               'the loop over %s does not run exactly that many times%s: records beyond (or short of) the announced section are reported as answers' %
+               (cnt, (' (%d announced, %d parsed)' % witness) if conj and step1 and start is not None else ''), where=f.loc(lp['i']))
+    # 4. names: terminator, pointer tag, pointer target
+    ln = local(fd, 'len')
+    if not ln:
+        raise AnalysisBroken('FetchDomain: local len not found')
+    term = None
+    for st in fd.stmts:
+        if st and st['k'] == 'BreakStmt':
+            for cond, k, b in fd.cfg.controlling_branches(q.pt_or_term(fd, st)):
+                names = {fd.stmts[x].get('n') for x in fd.walk(cond) if fd.stmts[x]['k'] == 'DeclRefExpr'}
+                if names == {'len'} and term is None and not any(fd.stmts[x]['k'] == 'BinaryOperator' and fd.stmts[x].get('op') == '&' for x in fd.walk(cond)):
+                    term = (cond, k)
+    if term is None:
+        ctx.ob('C15.R12', '%s|terminator' % fd.name, False, 'no break on the zero-length label', where=fd.loc(fd.body))
+    else:
+        bad = [v for v in range(256) if edge_truth(fd, term[0], term[1], {'len': v}) != (v == 0)]
+        ctx.ob('C15.R12', '%s|terminator' % fd.name, not bad, 'a name ends exactly at a label of length 0' if not bad else
+               'the name terminator test is wrong for length byte %d' % bad[0], where=fd.loc(term[0]))
+    off = local(fd, 'offset')
+    tag = None
+    if off and 'init' in off:
+        for cond, k, b in fd.cfg.controlling_branches(fd.cfg.point_of(off['init'])):
+            names = {fd.stmts[x].get('n') for x in fd.walk(cond) if fd.stmts[x]['k'] == 'DeclRefExpr'}
+            if names == {'len'} and (term is None or cond != term[0]):
+                tag = (cond, k)
+    if tag is None or not off:
+        ctx.ob('C15.R12', '%s|pointer-tag' % fd.name, False, 'the compression-pointer branch (offset computed under a test of the two top bits of len) was not found', where=fd.loc(fd.body))
+    else:
+        bad = [v for v in range(1, 256) if edge_truth(fd, tag[0], tag[1], {'len': v}) != ((v & 0xc0) == 0xc0)]
+        ctx.ob('C15.R12', '%s|pointer-tag' % fd.name, not bad, 'a length byte is a compression pointer exactly when its two top bits are set' if not bad else
+               'the compression tag test is wrong for length byte 0x%02x' % bad[0], where=fd.loc(tag[0]))
+        lows = [n_ for n_ in {fd.stmts[x].get('n') for x in fd.walk(off['init']) if fd.stmts[x]['k'] == 'DeclRefExpr'} if n_ != 'len']
+        bad = []
+        if len(lows) == 1:
+            for a in (0xc0, 0xc1, 0xff, 0xe5, 0xd0):
+                for b in (0, 1, 0x0c, 0x7f, 0x80, 0xff):
+                    if fold(fd, off['init'], {'len': a, lows[0]: b}) != (((a & 0x3f) << 8) | b):
+                        bad.append((a, b))
+        ctx.ob('C15.R12', '%s|pointer-target' % fd.name, len(lows) == 1 and not bad, 'pointer target = ((len & 0x3f) << 8) | next byte' if len(lows) == 1 and not bad else
+               'the pointer target is not ((len & 0x3f) << 8) | next byte%s' % ((' for bytes %02x %02x' % bad[0]) if bad else ''), where=fd.loc(off['init']))
+
+
+def _conjuncts(f, e):
+    st = f.s(f.strip_casts(e))
+    if st is not None and st['k'] == 'ParenExpr':
+        return _conjuncts(f, st['ch'][0])
+    if st is not None and st['k'] == 'BinaryOperator' and st.get('op') == '&&':
+        return _conjuncts(f, st['ch'][0]) + _conjuncts(f, st['ch'][1])
+    return [e]
+
+
 def run(ctx):
     prog = extract('ALL' if ctx.tier == 'thorough' else SCOPE)
     ctx.guard(r1, ctx, prog)
@@ -443,6 +620,7 @@ def run(ctx):
     ctx.guard(tmon.run_users, ctx, prog, 'C15.R9', DNS)
     ctx.guard(r10, ctx, prog)
     ctx.guard(r11, ctx, prog)
+    ctx.guard(r12, ctx, prog)
     ctx.guard(harden.run, ctx, prog, 'C15.R8', [prog.fn1(DNS + '::onUdpRecv')],
               lambda g: g.file.startswith(MODULES + '/network/') or g.file.startswith(MODULES + '/util/'), 'DNS datagram path')
     return prog
